@@ -43,3 +43,24 @@ impl Rng {
     pub fn below(&mut self, n: u64) -> u64 { self.next() % n }
     pub fn bytes(&mut self, n: usize) -> Vec<u8> { (0..n).map(|_| (self.next() >> 32) as u8).collect() }
 }
+
+/// A copy of `data` placed so that its first byte sits at address = `want` (mod 16).  Every byte-slice argument handed to the library goes
+/// through `realign`, which cycles `want` through 0..16 from call to call: results must not depend on where a slice happens to lie in memory
+/// (word-at-a-time fast paths, `align_to`), and a Vec straight from the allocator is always 16-byte aligned.
+pub struct Placed { buf: Vec<u8>, start: usize, len: usize }
+impl Placed {
+    pub fn new(data: &[u8], want: usize) -> Placed {
+        let mut buf = vec![0xA5u8; data.len() + 32];
+        let base = buf.as_ptr() as usize;
+        let start = (16 + want - (base % 16)) % 16;
+        buf[start..start + data.len()].copy_from_slice(data);
+        Placed { buf, start, len: data.len() }
+    }
+    pub fn get(&self) -> &[u8] { &self.buf[self.start..self.start + self.len] }
+}
+static ALIGN_CTR: std::sync::atomic::AtomicUsize = std::sync::atomic::AtomicUsize::new(0);
+pub fn realign(data: &[u8]) -> Placed {
+    let n = ALIGN_CTR.fetch_add(1, std::sync::atomic::Ordering::Relaxed);
+    // mostly odd offsets, every residue in turn; offset 0 is what a plain Vec gives anyway
+    Placed::new(data, [1usize, 0, 3, 8, 5, 2, 7, 4, 9, 15, 11, 6, 13, 10, 12, 14][n % 16])
+}
